@@ -86,7 +86,8 @@ Record prog := mkprog { p_init : list stmt; p_body : list stmt; p_outs : list (s
 
 Definition state := nat -> dt.
 Definition upd (st : state) (x : nat) (d : dt) : state := fun y => if Nat.eqb y x then d else st y.
-(* an unassigned variable reads as bool: it is in no S_tau / P_tau, so reading it can never look clean *)
+(* an unassigned variable reads as bool.  Under `eval` that is neutral in a promotion (promote F32 B = F32); the program checks never
+   rely on it: ok_expr / ok_expr2 accept a variable only if it has been assigned an in-class value (memb x D / getb D x) *)
 Definition st0 : state := fun _ => B.
 
 Fixpoint eval (en : env) (st : state) (e : expr) : dt :=
@@ -638,3 +639,44 @@ Definition prog_ok2 (en : env) (p : prog) : bool :=
 Definition mask_dts := [B; I64; F32; F64; C64; C128].
 Definition ext_ok_any (p : prog) : bool := forallb (fun t => forallb (fun m => prog_ok2 (mkenv t m) p) mask_dts) ctxs.
 Definition ext_ok_same (p : prog) : bool := forallb (fun t => prog_ok2 (mkenv t t) p) ctxs.
+
+(* ------------------------------------------------------------------ "complex stays complex": outputs that are EXACTLY tau
+   prog_ok / strongP allow the real type of the same precision (norms, errors, singular values are real for complex data).  The
+   stricter per-output check below tracks the variables known to hold exactly tau: RealOf never yields an exact value, a
+   promotion / division is exact as soon as one operand is (the other being in the class). *)
+
+Fixpoint exact_expr (en : env) (X : list nat) (e : expr) : bool :=
+  match e with
+  | Leaf l => dt_eqb (leaf_dt en l) (tau en)
+  | Var x => memb x X
+  | Op a b | Div a b => exact_expr en X a || exact_expr en X b
+  | ToFloat a => exact_expr en X a
+  | RealOf _ => false
+  | Into tg _ => exact_expr en X tg
+  end.
+Fixpoint exact_block (en : env) (D X : list nat) (b : list stmt) : option (list nat * list nat) :=
+  match b with
+  | [] => Some (D, X)
+  | (x, e) :: r => if ok_expr en D e
+                   then exact_block en (x :: D) (if exact_expr en X e then x :: X else removeb x X) r
+                   else None
+  end.
+Definition out_exact (en : env) (p : prog) (o : string * expr) : bool :=
+  match exact_block en [] [] (p_init p) with
+  | Some (D1, X1) =>
+      match exact_block en D1 X1 (p_body p) with
+      | Some (D2, X2) => subsetb D1 D2 && subsetb X1 X2 && ok_expr en D1 (snd o) && exact_expr en X1 (snd o)
+      | None => false
+      end
+  | None => false
+  end.
+
+
+(* which outputs are real-valued BY DESIGN (norms, errors, singular values, absolute values, non-negative families) *)
+Definition nonneg_family (f : family) : bool := match f with FNNParafac | FNNParafacHals | FNNTucker | FNNTuckerHals => true | _ => false end.
+Definition real_by_design (c : cfg) (s : string) : bool :=
+  String.eqb s "errors"
+  || (String.eqb s "weights" && (c_normalize c || match c_fam c with FFlipSign | FCpNormalize => true | _ => false end))
+  || (match c_fam c with FSvd => String.eqb s "out1" || c_alt c | _ => false end)
+  || nonneg_family (c_fam c)
+  || (match c_fam c with FRandom => c_warm c | _ => false end).
